@@ -124,6 +124,59 @@ pub fn run(ctx: &mut Ctx) {
         }
         ctx.rng = rng;
     }
+    // (S6) stored sessions and configured registries whose trust-anchor PEM TEXT is not one clean certificate: markers in
+    // the wrong order, missing, doubled, text around them, two certificates, CRLF, non-ASCII, a cut body
+    {
+        use isomdl::definitions::x509::trust_anchor::{PemTrustAnchor, TrustAnchorRegistry, TrustPurpose};
+        let mut rng: StdRng = ctx.rng.clone();
+        let pki = crate::pki::Pki::generate(&mut rng);
+        let (m, _) = issue(&mut rng, &pki, MDL, [(NS.to_string(), [("family_name".to_string(), Value::Text("Doe".into()))].into_iter().collect())].into_iter().collect(), isomdl::definitions::DigestAlgorithm::SHA256, false);
+        let first: std::collections::BTreeMap<String, Vec<String>> = [(NS.to_string(), vec!["family_name".to_string()])].into_iter().collect();
+        let reg = registry(vec![(pki.iaca.clone(), TrustPurpose::Iaca), (pki.reader_ca.clone(), TrustPurpose::ReaderCa)]);
+        if let Ok(e) = establish(documents_of(vec![m]), None, &first, reg.clone(), reg) {
+            let (dev_s, rdr_s) = (e.dev.stringify().unwrap(), e.rdr.stringify().unwrap());
+            const B: &str = "-----BEGIN CERTIFICATE-----";
+            const E: &str = "-----END CERTIFICATE-----";
+            let variants = |p: &str| -> Vec<(&'static str, String)> {
+                let body: String = p.lines().filter(|l| !l.starts_with("-----")).collect::<Vec<_>>().join("\n");
+                vec![
+                    ("end-line-first", format!("{E}\n{p}")), ("end-before-begin", format!("{E}\n{body}\n{B}\n")), ("two-certificates", format!("{p}{p}")), ("text-before", format!("subject=CN=x\n{p}")),
+                    ("text-after", format!("{p}trailing text\n")), ("no-end", format!("{B}\n{body}\n")), ("no-begin", format!("{body}\n{E}\n")), ("only-begin", B.to_string()), ("only-end", E.to_string()),
+                    ("empty", String::new()), ("crlf", p.replace('\n', "\r\n")), ("non-ascii-before", format!("é{p}")), ("non-ascii-inside", format!("{B}\né{body}\n{E}\n")),
+                    ("body-cut", format!("{B}\n{}\n{E}\n", &body[..body.len() / 2])), ("begin-twice", format!("{B}\n{p}")), ("end-twice", format!("{p}{E}\n")), ("markers-adjacent", format!("{B}{E}")),
+                    ("other-label", p.replace("CERTIFICATE", "PUBLIC KEY")), ("lower-case-markers", p.replace("BEGIN", "begin").replace("END", "end")),
+                ]
+            };
+            fn rewrite(v: &mut Value, f: &dyn Fn(&str) -> String) {
+                match v {
+                    Value::Text(t) if t.contains("-----BEGIN CERTIFICATE-----") => { *t = f(t); }
+                    Value::Array(a) => for x in a { rewrite(x, f) },
+                    Value::Map(m) => for (_, x) in m { rewrite(x, f) },
+                    Value::Tag(_, b) => rewrite(b, f),
+                    _ => {}
+                }
+            }
+            let pem = { use der::EncodePem; pki.iaca.to_pem(Default::default()).unwrap_or_default() };
+            for (name, _) in variants(&pem) {
+                for (which, st) in [("device", &dev_s), ("reader", &rdr_s)] {
+                    let mut v = state_value(st);
+                    rewrite(&mut v, &|p| variants(p).into_iter().find(|(n, _)| *n == name).map(|(_, t)| t).unwrap_or_default());
+                    let enc = base64::encode(to_bytes(&v));
+                    let f2 = first.clone();
+                    attempt(ctx, &format!("stored:{which}(trust anchor PEM text)"), hex::encode(name.as_bytes()), move || if which == "device" {
+                        match device::SessionManager::parse(enc) { Ok(mut x) => { let _ = x.handle_request(&[0xa0]); let _ = x.stringify(); "restored+used" } Err(_) => "rejected" }
+                    } else {
+                        match reader::SessionManager::parse(enc) { Ok(mut x) => { let _ = x.new_request(namespaces_of(&f2)); let _ = x.stringify(); "restored+used" } Err(_) => "rejected" }
+                    });
+                }
+            }
+            for (name, text_) in variants(&pem) {
+                attempt(ctx, "TrustAnchorRegistry::from_pem_certificates", hex::encode(name.as_bytes()), move || {
+                    match TrustAnchorRegistry::from_pem_certificates(vec![PemTrustAnchor { certificate_pem: text_, purpose: TrustPurpose::Iaca }]) { Ok(_) => "built", Err(_) => "rejected" } });
+            }
+        }
+        ctx.rng = rng;
+    }
     // (S5) element values at the numeric extremes of CBOR (the reader renders every disclosed value): integers around
     // i64::MIN / u64::MAX / -2^64, floats, deep nesting; correctly encrypted, in the core and the AAMVA namespace
     {
